@@ -1,13 +1,261 @@
 (* C08 - equivalent spellings of a Touchstone / NPD file load to the same network data.
-   Theorems only; model in Files/NpdScan.v.  Only the NPD header clause is proved; the other
-   clauses of the property are covered by the spelling generator of checks/C08.py (support). *)
-Require Import List Bool Permutation.
+   Theorems only; models in Files/TsTok.v (tokenizer), Files/TsParse.v (parser), Files/TsSpec.v (inverse grammar:
+   the token stream of an abstract well-formed file and the object it must load to), Files/NpdScan.v,
+   Files/NpdLoad.v; lemmas in Files/TsLoadV2.v, TsLoadV1.v, TsEquiv.v, TsMatrix.v, TsSpecV2.v, TsTokProofs.v,
+   TsParseBasics.v, NpdScanProofs.v, NpdLoadProofs.v; concrete files in Files/TsExamples.v.
+
+   Numbers are exact (rationals, infinities, NaN); the conversion of an MA / DB pair to a complex number is not
+   modelled (a cell keeps the pair as written), so "RI vs MA vs DB" is not a theorem here (checks/C08.py tests it). *)
+Require Import List NArith ZArith QArith Qcanon Bool Permutation.
 Import ListNotations.
-Require Import LV.Files.NpdScan LV.Files.NpdScanProofs.
+Require Import LV.Files.NpdScan LV.Files.NpdScanProofs LV.Files.NpdLoad LV.Files.NpdLoadProofs.
+Require Import LV.Files.TsTok LV.Files.TsTokProofs LV.Files.TsParse LV.Files.TsParseBasics LV.Files.TsSpec.
+Require Import LV.Files.TsSpecV2 LV.Files.TsMatrix LV.Files.TsLoadV2 LV.Files.TsLoadV1 LV.Files.TsEquiv LV.Files.TsExamples.
+
+(* ==== each spelling loads to the ground truth it was generated from ====================================== *)
+
+(* v2_load: the token stream of every well-formed version-2 file (any number of ports up to 46340, any number of
+   frequency records, Full / Upper / Lower, with or without [Two-Port Order], [Matrix Format], [Reference], [End])
+   parses to the object the file describes. *)
+Theorem v2_load : forall f : v2file, v2_wf f -> parse (v2_stream f) = Ok (v2_result f).
+Proof. exact v2_load_lemma. Qed.
+Print Assumptions v2_load.
+
+(* v1_load: the same for every well-formed version-1 file (1 to 4 ports, one or more frequencies, optional noise
+   lines after 2-port data); includes the inference of the port count from the first line, the 2-port / 4-port
+   disambiguation on the second line, the N11 N21 N12 N22 order and the un-normalisation of Z/Y/H/G data. *)
+Theorem v1_load : forall g : v1file, v1_wf g -> parse (v1_stream g) = Ok (v1_result g).
+Proof. exact v1_load_lemma. Qed.
+Print Assumptions v1_load.
+
+(* the hypotheses are met by concrete files, given as bytes: a 3-port Upper MHz file ... *)
+Example v2_load_instance :
+  v2_wf ex2_upper /\ tokens ex2_upper_bytes = v2_stream ex2_upper /\ load_ts ex2_upper_bytes = Ok (v2_result ex2_upper).
+Proof. exact v2_load_instance_all. Qed.
+Example v2_load_instance_object :
+  match load_ts ex2_upper_bytes with
+  | Ok o => o_v2 o = true /\ o_type o = PS /\ o_fmt o = FRI /\ o_ports o = 3%nat /\
+            xsview (o_freqs o) = [inl (100000000 # 1); inl (250500000 # 1)] /\
+            xsview (o_z0 o) = [inl (75 # 1); inl (75 # 1); inl (75 # 1)] /\
+            map (@length cell) (o_cells o) = [9%nat; 9%nat] /\
+            nth 5 (nth 0 (o_cells o) []) cell0 = nth 7 (nth 0 (o_cells o) []) cell0 /\
+            cview (nth 5 (nth 0 (o_cells o) []) cell0) = (inl (3 # 2), inl (4 # 25), inl (1 # 1))
+  | Error _ => False
+  end.
+Proof. exact ex2_upper_object. Qed.
+(* ... a 2-port version-1 file with noise lines and a 4-port version-1 Z file (un-normalised by R = 50) *)
+Example v1_load_instance :
+  v1_wf ex1_two /\ tokens ex1_two_bytes = v1_stream ex1_two /\ load_ts ex1_two_bytes = Ok (v1_result ex1_two) /\
+  v1_wf ex1_four /\ tokens ex1_four_bytes = v1_stream ex1_four /\ load_ts ex1_four_bytes = Ok (v1_result ex1_four).
+Proof. exact v1_load_instance_all. Qed.
+Example v1_load_instance_object :
+  match load_ts ex1_four_bytes with
+  | Ok o => o_v2 o = false /\ o_type o = PZ /\ o_fmt o = FRI /\ o_ports o = 4%nat /\
+            xsview (o_freqs o) = [inl (10000 # 1); inl (20000 # 1)] /\ xsview (o_z0 o) = repeat (inl (50 # 1)) 4 /\
+            map (@length cell) (o_cells o) = [16%nat; 16%nat] /\
+            cview (nth 1 (nth 0 (o_cells o) []) cell0) = (inl (51 # 1), inl (- 2 # 1), inl (1 # 1)) /\
+            cview (nth 15 (nth 1 (o_cells o) []) cell0) = (inl (108 # 1), inl (- 19 # 2), inl (1 # 1))
+  | Error _ => False
+  end.
+Proof. exact ex1_four_object. Qed.
+
+(* ==== equivalent spellings load to the same object ======================================================== *)
+
+(* v2_same_content: two well-formed version-2 files with the same type, format, R, port count, [Reference] values,
+   frequencies (unit x number) and matrices (after placing the listed pairs) load to the same object. *)
+Theorem v2_same_content : forall f1 f2 : v2file, v2_wf f1 -> v2_wf f2 -> v2_equiv f1 f2 ->
+  parse (v2_stream f1) = parse (v2_stream f2) /\ parse (v2_stream f1) = Ok (v2_result f1).
+Proof. exact v2_equiv_load_lemma. Qed.
+Print Assumptions v2_same_content.
+
+Example v2_same_content_instance :
+  v2_wf ex2_upper /\ v2_wf ex2_lower /\ v2_wf ex2_full /\ v2_equiv ex2_upper ex2_lower /\ v2_equiv ex2_upper ex2_full.
+Proof. exact v2_same_content_instance_all. Qed.
+
+(* unit_scaling: Hz / kHz / MHz / GHz / THz with correspondingly scaled frequency numbers (and any re-spelling of
+   the other numbers that keeps their values). *)
+Theorem unit_scaling : forall f1 f2 : v2file, v2_wf f1 -> v2_wf f2 ->
+  let h1 := opts_hdr true (f_opts f1) in
+  let h2 := opts_hdr true (f_opts f2) in
+  h_type h1 = h_type h2 -> h_fmt h1 = h_fmt h2 -> h_z0 h1 = h_z0 h2 ->
+  f_n f1 = f_n f2 -> f_order f1 = f_order f2 -> f_mf f1 = f_mf f2 ->
+  option_map (map n_val) (f_ref f1) = option_map (map n_val) (f_ref f2) ->
+  Forall2 (fun r1 r2 => xmul (XQ (h_mult h1)) (n_val (fst r1)) = xmul (XQ (h_mult h2)) (n_val (fst r2)) /\ same_values r1 r2)
+          (f_records f1) (f_records f2) ->
+  parse (v2_stream f1) = parse (v2_stream f2).
+Proof. exact unit_scaling_load_lemma. Qed.
+Print Assumptions unit_scaling.
+
+(* the arithmetic is exact: x in a unit of k Hz is k x Hz *)
+Theorem unit_scale_exact : forall (k : Z) (q : Qc), xmul (XQ (qcz k)) (XQ q) = xmul (XQ (qcz 1)) (XQ (qcz k * q)%Qc).
+Proof. exact unit_scale_value. Qed.
+Print Assumptions unit_scale_exact.
+
+(* the same for version 1, where in addition the noise lines do not matter *)
+Theorem v1_same_content : forall g1 g2 : v1file, v1_wf g1 -> v1_wf g2 ->
+  let h1 := opts_hdr false (g_opts g1) in
+  let h2 := opts_hdr false (g_opts g2) in
+  h_type h1 = h_type h2 -> h_fmt h1 = h_fmt h2 -> h_z0 h1 = h_z0 h2 -> g_ports g1 = g_ports g2 ->
+  Forall2 (fun r1 r2 => xmul (XQ (h_mult h1)) (n_val (fst r1)) = xmul (XQ (h_mult h2)) (n_val (fst r2)) /\ same_values r1 r2)
+          (g_records g1) (g_records g2) ->
+  parse (v1_stream g1) = parse (v1_stream g2).
+Proof. exact v1_equiv_load_lemma. Qed.
+Print Assumptions v1_same_content.
+
+(* option_order / option_default / option_last_wins: the fields of the option line in any order (each kind at
+   most once); a field that spells the default (GHz, S, MA, R 50) omitted; of two fields of a kind the last wins. *)
+Theorem option_order : forall (f : v2file) (fs : list ofield), v2_wf f -> Permutation (f_opts f) fs ->
+  NoDup (map okind_of (f_opts f)) -> parse (v2_stream (with_opts f fs)) = parse (v2_stream f).
+Proof. exact option_order_load_lemma. Qed.
+Print Assumptions option_order.
+
+Theorem option_default : forall (f : v2file) fs1 d fs2, v2_wf f -> f_opts f = fs1 ++ d :: fs2 -> is_default d ->
+  ~ In (okind_of d) (map okind_of fs1) -> parse (v2_stream (with_opts f (fs1 ++ fs2))) = parse (v2_stream f).
+Proof. exact option_default_load_lemma. Qed.
+Print Assumptions option_default.
+
+Theorem option_last_wins : forall (f : v2file) fs1 x fs2 y, v2_wf f -> f_opts f = fs1 ++ x :: fs2 ++ [y] ->
+  okind_of x = okind_of y -> parse (v2_stream (with_opts f (fs1 ++ fs2 ++ [y]))) = parse (v2_stream f).
+Proof. exact option_last_wins_load_lemma. Qed.
+Print Assumptions option_last_wins.
+
+(* the option line as a function of the header alone (any version): order, defaults, last wins *)
+Theorem option_line_header : forall v2 fs1 fs2, Permutation fs1 fs2 -> NoDup (map okind_of fs1) -> Forall ofield_ok fs1 ->
+  opts_hdr v2 fs1 = opts_hdr v2 fs2.
+Proof. exact option_order_lemma. Qed.
+Print Assumptions option_line_header.
+
+Example option_order_instance :
+  Permutation (f_opts ex2_upper) ex2_opts_permuted /\ NoDup (map okind_of (f_opts ex2_upper)).
+Proof. exact ex2_option_perm. Qed.
+
+(* matrix_format_equiv / two_port_order: the same matrices listed in the order of [Matrix Format] Full, Upper or
+   Lower (Upper / Lower for symmetric matrices) and of [Two-Port Order] 12_21 or 21_12 (n x n Full listing by
+   rows or by columns; for n = 2 this is the two-port order) load to the same object; for every number of ports. *)
+Theorem matrix_format_equiv : forall (f1 f2 : v2file) (Ms : list mat), v2_wf f1 -> v2_wf f2 ->
+  opts_hdr true (f_opts f1) = opts_hdr true (f_opts f2) -> f_n f1 = f_n f2 ->
+  option_map (map n_val) (f_ref f1) = option_map (map n_val) (f_ref f2) ->
+  map (fun r => n_val (fst r)) (f_records f1) = map (fun r => n_val (fst r)) (f_records f2) ->
+  map (fun r => map n_val (snd r)) (f_records f1) = map (listing (f_mf f1) (f_tr f1) (f_n f1)) Ms ->
+  map (fun r => map n_val (snd r)) (f_records f2) = map (listing (f_mf f2) (f_tr f2) (f_n f2)) Ms ->
+  (f_mf f1 <> MFull \/ f_mf f2 <> MFull -> Forall (symmetric (f_n f1)) Ms) ->
+  parse (v2_stream f1) = parse (v2_stream f2).
+Proof. exact matrix_format_load_lemma. Qed.
+Print Assumptions matrix_format_equiv.
+
+Theorem matrix_placement : forall n (M : mat) tr tr', symmetric n M ->
+  build_matrix MUpper tr n (nums_of (upper_pairs n M)) = build_matrix MFull false n (nums_of (full_pairs n M)) /\
+  build_matrix MLower tr' n (nums_of (lower_pairs n M)) = build_matrix MFull false n (nums_of (full_pairs n M)).
+Proof. exact matrix_format_equiv_lemma. Qed.
+Print Assumptions matrix_placement.
+
+Theorem two_port_order_placement : forall n (M : mat),
+  build_matrix MFull true n (nums_of (full_pairs n (transposed M))) = build_matrix MFull false n (nums_of (full_pairs n M)).
+Proof. exact two_port_order_equiv_lemma. Qed.
+Print Assumptions two_port_order_placement.
+
+Example matrix_format_instance :
+  Forall (symmetric 3) ex2_Ms /\
+  map (fun r => map n_val (snd r)) (f_records ex2_upper) = map (listing (f_mf ex2_upper) (f_tr ex2_upper) (f_n ex2_upper)) ex2_Ms /\
+  map (fun r => map n_val (snd r)) (f_records ex2_lower) = map (listing (f_mf ex2_lower) (f_tr ex2_lower) (f_n ex2_lower)) ex2_Ms /\
+  map (fun r => map n_val (snd r)) (f_records ex2_full) = map (listing (f_mf ex2_full) (f_tr ex2_full) (f_n ex2_full)) ex2_Ms.
+Proof. exact matrix_format_instance_all. Qed.
+
+(* v1_v2_equiv: the version-1 and the version-2 framing of the same S-parameter data ([Two-Port Order] 21_12 for two
+   ports, as a version-1 line lists N11 N21 N12 N22) hold the same data; for Z/Y/H/G data, which version 1 stores
+   normalised to R, the version-1 cells are the un-normalised version-2 cells (v1_v2_unnormalised). *)
+Theorem v1_v2_equiv : forall (g : v1file) (pt nt : inum) (e : bool), v1_wf g ->
+  inum_ok pt -> i_val pt = Z.of_nat (g_ports g) -> inum_ok nt -> i_val nt = Z.of_nat (length (g_records g)) ->
+  h_type (opts_hdr false (g_opts g)) = PS ->
+  exists a b, parse (v1_stream g) = Ok a /\ parse (v2_stream (v2_of_v1 g pt nt e)) = Ok b /\ same_data a b.
+Proof. exact v1_v2_equiv_lemma. Qed.
+Print Assumptions v1_v2_equiv.
+
+Theorem v1_v2_unnormalised : forall (g : v1file) (pt nt : inum) (e : bool), v1_wf g ->
+  inum_ok pt -> i_val pt = Z.of_nat (g_ports g) -> inum_ok nt -> i_val nt = Z.of_nat (length (g_records g)) ->
+  exists a b, parse (v1_stream g) = Ok a /\ parse (v2_stream (v2_of_v1 g pt nt e)) = Ok b /\
+    o_v2 a = false /\ o_v2 b = true /\
+    o_type a = o_type b /\ o_fmt a = o_fmt b /\ o_ports a = o_ports b /\ o_freqs a = o_freqs b /\ o_z0 a = o_z0 b /\
+    o_cells a = map (unnormalise (opts_hdr false (g_opts g))) (o_cells b).
+Proof. exact v1_v2_unnormalised_lemma. Qed.
+Print Assumptions v1_v2_unnormalised.
+
+Example v1_v2_equiv_instance :
+  v1_wf ex1_two /\
+  (inum_ok ex_two /\ i_val ex_two = Z.of_nat (g_ports ex1_two) /\
+   i_val ex_two = Z.of_nat (length (g_records ex1_two)) /\ h_type (opts_hdr false (g_opts ex1_two)) = PS) /\
+  tokens ex1_two_as_v2_bytes = v2_stream (v2_of_v1 ex1_two ex_two ex_two true) /\
+  match load_ts ex1_two_bytes, load_ts ex1_two_as_v2_bytes with
+  | Ok a, Ok b => same_data a b /\ o_v2 a = false /\ o_v2 b = true /\ o_ports a = 2%nat /\ length (o_cells a) = 2%nat
+  | _, _ => False
+  end.
+Proof. exact v1_v2_equiv_instance_all. Qed.
+
+(* ==== decoration of the bytes: case, spacing, comments, blank lines, line breaks =========================== *)
+
+(* tok_case: next_char upper-cases every byte, so inputs that agree after upper-casing give the same tokens and
+   load to the same result; in particular swapping the case of every letter changes nothing. *)
+Theorem tok_case_insensitive : forall l1 l2, map upcase l1 = map upcase l2 -> tokens l1 = tokens l2 /\ load_ts l1 = load_ts l2.
+Proof. exact (fun l1 l2 H => conj (tok_case_insensitive_lemma l1 l2 H) (load_case_insensitive_lemma l1 l2 H)). Qed.
+Print Assumptions tok_case_insensitive.
+
+Theorem load_swapcase : forall l, load_ts (map swapcase l) = load_ts l.
+Proof. exact load_swapcase_lemma. Qed.
+Print Assumptions load_swapcase.
+
+(* spacing: a blank (space, tab, VT, FF, CR) inserted anywhere except inside a word or a [keyword] *)
+Theorem load_blank : forall pre suf c, is_blank c = true ->
+  match state_after pre with Some (m, _) => gap m (map upcase suf) | None => True end ->
+  tokens (pre ++ c :: suf) = tokens (pre ++ suf) /\ load_ts (pre ++ c :: suf) = load_ts (pre ++ suf).
+Proof. exact (fun pre suf c Hb Hs => conj (tok_decoration_blank_lemma pre suf c Hb Hs) (load_blank_lemma pre suf c Hb Hs)). Qed.
+Print Assumptions load_blank.
+
+(* comments: "! ..." up to (not including) the end of the line, inserted anywhere except inside a [keyword] *)
+Theorem load_comment : forall pre suf body,
+  match state_after pre with Some (MKw _, _) => False | _ => True end ->
+  Forall (fun c => c <> 10%N) body -> (suf = [] \/ exists s', suf = 10%N :: s') ->
+  tokens (pre ++ 33%N :: body ++ suf) = tokens (pre ++ suf) /\ load_ts (pre ++ 33%N :: body ++ suf) = load_ts (pre ++ suf).
+Proof.
+  exact (fun pre suf body H1 H2 H3 => conj (tok_decoration_comment_lemma pre suf body H1 H2 H3)
+                                           (load_comment_lemma pre suf body H1 H2 H3)).
+Qed.
+Print Assumptions load_comment.
+
+(* blank lines: a newline inserted right after a newline *)
+Theorem load_blank_line : forall pre suf out o,
+  run MNormal false (map upcase pre) = (out ++ [RNl o], Some (MNormal, false)) ->
+  load_ts (pre ++ 10%N :: suf) = load_ts (pre ++ suf).
+Proof. exact load_blank_line_lemma. Qed.
+Print Assumptions load_blank_line.
+
+(* line breaks where allowed: a newline between two tokens wherever the parser is not inside a version-1 data
+   line (a version-2 file outside the option line, between the lines of a version-1 file, before the first token) *)
+Theorem load_line_break : forall pre suf out,
+  run MNormal false (map upcase pre) = (out, Some (MNormal, false)) ->
+  f_eol (flags_of (fold_left pstep out SStart)) = false ->
+  load_ts (pre ++ 10%N :: suf) = load_ts (pre ++ suf).
+Proof. exact load_line_break_lemma. Qed.
+Print Assumptions load_line_break.
+
+(* on the token stream: a newline after a newline, and a newline where next_token is called without F_EOL, are free *)
+Theorem parse_nl_after_nl : forall s1 s2 o, parse (s1 ++ RNl o :: RNl false :: s2) = parse (s1 ++ RNl o :: s2).
+Proof. exact parse_nl_after_nl_lemma. Qed.
+Print Assumptions parse_nl_after_nl.
+
+(* a decorated spelling (mixed case, comments with '#' and '[', blank lines, tabs, CR LF, records broken over lines,
+   GHz / Lower / other option order) of the 3-port file loads to the same object as the plain MHz / Upper one;
+   a blank inside a word is not a decoration *)
+Example decoration_instance : load_ts ex2_lower_decorated = load_ts ex2_upper_bytes.
+Proof. exact ex2_decorated_same. Qed.
+Example decoration_side_condition_needed :
+  tokens ([35;32;71] ++ 32 :: [72;122])%N <> tokens ([35;32;71] ++ [72;122])%N.
+Proof. exact ex_blank_in_word_differs. Qed.
+
+(* ==== NPD ================================================================================================= *)
 
 (* npd_header_order: NPD header lines (version, ports, rows, columns, frequencies, parameters,
    fprecision, dprecision - each at most once) in any order give the same loader state.
-   Partial: the #:z0 line, which must follow the port count, is not in the model. *)
+   Partial: the #:z0 line, which must follow the port count, is not in this model. *)
 Theorem npd_header_order_partial : forall l1 l2 : list hline,
   Permutation l1 l2 -> NoDup (map hkey l1) ->
   header_result (hrun l1) = header_result (hrun l2).
@@ -15,10 +263,10 @@ Proof. exact npd_header_order_lemma. Qed.
 Print Assumptions npd_header_order_partial.
 
 Example npd_header_order_instance :
-  header_result (hrun [HDprecision 6; HParameters [Build_entry PS RI]; HFrequencies 2; HPorts 3; HVersion true]) =
-  Some (3, 2, [Build_entry PS RI]) /\
-  header_result (hrun [HVersion true; HPorts 3; HFrequencies 2; HParameters [Build_entry PS RI]; HDprecision 6]) =
-  Some (3, 2, [Build_entry PS RI]).
+  header_result (hrun [HDprecision 6; HParameters [Build_entry NpdScan.PS RI]; HFrequencies 2; HPorts 3; HVersion true]) =
+  Some (3%nat, 2%nat, [Build_entry NpdScan.PS RI]) /\
+  header_result (hrun [HVersion true; HPorts 3; HFrequencies 2; HParameters [Build_entry NpdScan.PS RI]; HDprecision 6]) =
+  Some (3%nat, 2%nat, [Build_entry NpdScan.PS RI]).
 Proof. exact header_order_example. Qed.
 
 (* the hypothesis "each keyword at most once" is needed *)
@@ -26,3 +274,16 @@ Example npd_header_duplicates_matter :
   header_result (hrun [HPorts 1; HFrequencies 1; HFrequencies 2; HParameters []]) <>
   header_result (hrun [HPorts 1; HFrequencies 2; HFrequencies 1; HParameters []]).
 Proof. exact header_duplicates. Qed.
+
+(* npd_comment_blank_invariance (byte level, whole loader): a blank where white space is allowed, a '#' comment
+   (not '#:' + letter) before the end of a line, and an empty line do not change what the NPD loader returns. *)
+Theorem npd_comment_blank_invariance :
+  (forall pre suf c, is_blank c = true -> ngap (fst (snd (nrun NNormal [] pre))) suf ->
+     load_npd (pre ++ c :: suf) = load_npd (pre ++ suf)) /\
+  (forall pre suf body, fst (snd (nrun NNormal [] pre)) = NNormal -> comment_body body ->
+     (suf = [] \/ exists s', suf = 10%N :: s') ->
+     load_npd (pre ++ 35%N :: body ++ suf) = load_npd (pre ++ suf)) /\
+  (forall pre suf, snd (nrun NNormal [] pre) = (NNormal, []) ->
+     load_npd (pre ++ 10%N :: suf) = load_npd (pre ++ suf)).
+Proof. exact npd_comment_blank_invariance_lemma. Qed.
+Print Assumptions npd_comment_blank_invariance.
